@@ -2162,6 +2162,9 @@ func (ss *ServerSession) Wait() error {
 	return ss.conn.Wait()
 }
 
+// abort closes the transport without waiting for work in flight.
+func (ss *ServerSession) abort() { _ = ss.mcpConn.Close() }
+
 // startKeepalive starts the keepalive mechanism for this server session.
 func (ss *ServerSession) startKeepalive(interval time.Duration) {
 	startKeepalive(ss, interval, ss.server.opts.KeepAliveFailureThreshold, &ss.keepaliveCancel, ss.server.opts.Logger)
